@@ -229,6 +229,14 @@ def fixed_zoo():
         "particle": {"$top": {"Ak": _p("1/2", 1, 4.6)},
                      "$finals": {"Bk": _p("1/2", 1, 0.938), "Ck": _p(0, -1, 0.494), "Dk": _p(1, -1, 0.78)},
                      "Rbck": _p("3/2", -1, 1.9, width=0.1), "Rbdk": _p("1/2", 1, 2.43, width=0.3), "Rcdk": _p(1, 1, 1.8, width=0.13)}}})
+    # 10: structure 5 (identical fermions) with the fixed laboratory z axis (random_z False, r_boost left at its default):
+    # the exchanged pass of cal_angle_from_momentum_id_swap must use the same options as the direct pass
+    Z.append({"name": "s3_identical_fermions_fixed_z", "pc": True, "cfg": {
+        "data": {"dat_order": ["Bm", "C1m", "C2m"], "identical_particles": [["C1m", "C2m"]], "random_z": False},
+        "decay": {"Am": [["Rbcm", "C2m"], ["Rccm", "Bm"]], "Rbcm": ["Bm", "C1m"], "Rccm": ["C1m", "C2m"]},
+        "particle": {"$top": {"Am": _p(1, -1, 3.686)},
+                     "$finals": {"Bm": _p(0, -1, 0.548), "C1m": _p("1/2", 1, 0.938), "C2m": _p("1/2", 1, 0.938)},
+                     "Rbcm": _p("3/2", -1, 1.535, width=0.15), "Rccm": _p(1, -1, 2.2, width=0.18)}}})
     return Z
 
 
@@ -307,6 +315,8 @@ def random_structure(rng, idx):
         data["identical_particles"] = ident
     if rng.random() < 0.15:
         data["align_ref"] = "center_mass"
+    if rng.random() < 0.25:
+        data["random_z"] = False  # fixed laboratory z axis (an admissible choice, C02)
     return {"name": "random_%d" % idx, "pc": not pv, "cfg": {"data": data, "decay": decay, "particle": particle}}
 
 
